@@ -330,6 +330,8 @@ class OverlappingExons:
         return result == any(location.parts[i].end == location.parts[j].end
                              for i in range(n) for j in range(n) if i < j)
 
+    returns = Bool
+
 
 @contract(f"{FILE}::remove_redundant_exons", props=["C04"])
 class RemoveRedundantExons:
